@@ -10,7 +10,7 @@ RULE = ("wide task graphs (up to 12 simultaneously ready tasks, mixed paralleliz
 
 def main(tier, n=None):
     plan = [("wide", 1100, 60000, None, 8), ("deps", 300, 10000, None, 8), ("wide", 150, 6000, list(sched.schedsim.LINE_STRATEGIES), 6)]
-    rep, code = S.run(PROP, tier, "exploration", RULE, plan, ["c04_env_checks", "c04_instants"], n)
+    rep, code = S.run(PROP, tier, "exploration", RULE, plan, ["c04_env_checks", "c04_instants", "c04_e1_quiescent_points", "c04_e1_env_checks"], n, e1=("wide", 60, 1500, 7))
     return code
 
 
